@@ -367,6 +367,41 @@ func realKeySet(r *Rng) []realKey {
 	return realKeys
 }
 
+// opaqueSigner hides the concrete key type behind the crypto.Signer interface, as an HSM / KMS adapter does
+type opaqueSigner struct{ crypto.Signer }
+
+var (
+	opaqueOnce sync.Once
+	opaqueKeys []realKey
+)
+
+// opaqueKeySet: the keys of realKeySet offered as opaque crypto.Signers, ECDSA keys under every algorithm the
+// library lets them sign with (also ES384 / ES512 with a P-256 key and so on), RSA keys under the three PSS algorithms
+func opaqueKeySet(r *Rng) []realKey {
+	opaqueOnce.Do(func() {
+		for _, k := range realKeySet(r) {
+			switch k.priv.(type) {
+			case *ecdsa.PrivateKey:
+				for _, a := range []cose.Algorithm{cose.AlgorithmES256, cose.AlgorithmES384, cose.AlgorithmES512} {
+					ok := realKey{a, "opaque-" + k.name + "-under-" + a.String(), opaqueSigner{k.priv}, k.pub}
+					if _, err := cose.NewSigner(a, ok.priv); err != nil {
+						continue
+					}
+					if _, err := cose.NewVerifier(a, ok.pub); err != nil {
+						continue
+					}
+					opaqueKeys = append(opaqueKeys, ok)
+				}
+			case *rsa.PrivateKey:
+				if k.name == "RSA-2048" {
+					opaqueKeys = append(opaqueKeys, realKey{k.alg, "opaque-" + k.name, opaqueSigner{k.priv}, k.pub})
+				}
+			}
+		}
+	})
+	return opaqueKeys
+}
+
 func (k realKey) signer() cose.Signer {
 	s, err := cose.NewSigner(k.alg, k.priv)
 	if err != nil {
